@@ -245,9 +245,9 @@ PROP = Prop(
           "2^-0.5) plus random ones; further cases draw both at random. cms / cuckoo: fixed grids (index 0) incl. exact breakpoints 2/w, 1-2^-d, "
           "2b/2^f, then random pairs. Each case covers 60-170 configurations; all are distinct (different n or random draws); non-trivial = at least one accepted configuration checked."),
     workloads=[
-        Workload("bloom_sweep", wl_bloom_sweep, quick=len(NS) + 60, thorough=len(NS) + 30000),
-        Workload("cms", wl_cms, quick=30, thorough=3000),
-        Workload("cuckoo", wl_cuckoo, quick=20, thorough=2000),
+        Workload("bloom_sweep", wl_bloom_sweep, quick=len(NS) + 60, thorough=len(NS) + 100000),
+        Workload("cms", wl_cms, quick=30, thorough=12000),
+        Workload("cuckoo", wl_cuckoo, quick=20, thorough=8000),
     ],
     assumptions=["formulas evaluated in 60-digit decimal arithmetic on the exact values of the float inputs; either neighbour accepted when the exact "
                  "argument of ceil/round is within 1e-12 (relative) of a breakpoint (float noise is ~1e-15; a tolerance-style rounding bug is >= 1e-10)",
